@@ -285,6 +285,7 @@ func runReset(c *core.Ctx) []core.Obligation {
 		}
 	}
 	obs = append(obs, cursorAdvance(c))
+	obs = append(obs, refreshReloads(c))
 	return obs
 }
 
@@ -1194,4 +1195,56 @@ func establishesIndex(c *core.Ctx, fn *ssa.Function, at ssa.Instruction, obj ssa
 		how = "no return reachable"
 	}
 	return true, how
+}
+
+
+// refreshReloads (after round-7 seed C13-r7m1, refresh skipping the map lookup "when the iterator has not moved"): a
+// long-lived iterator (inside a reused ContainsPointQuery, CrossingEdgeQuery or ShapeIndexRegion) outlives Reset and
+// rebuilds of its index. The cell pointer it caches is only meaningful for the index contents it was read from, and a
+// rebuilt index can have a cell with the same id, so whenever refresh finds the position in range it must read the
+// cell from the index's map again - on every path, not only when the id changed.
+func refreshReloads(c *core.Ctx) core.Obligation {
+	const construct = "ShapeIndexIterator.refresh:cell-reloaded-on-every-path"
+	fn := c.Fn("s2", "ShapeIndexIterator", "refresh")
+	if fn == nil {
+		return core.Ob("R-RESET", construct, "-", "", core.Violated, "unresolved anchor")
+	}
+	// blocks that store a map lookup into the field cell
+	reload := map[*ssa.BasicBlock]bool{}
+	other := map[*ssa.BasicBlock]bool{} // stores of anything else (nil on the out-of-range branch)
+	core.AllInstrs(fn, func(in ssa.Instruction) {
+		st, ok := in.(*ssa.Store)
+		if !ok {
+			return
+		}
+		fr, ok := core.AsFieldAddr(st.Addr)
+		if !ok || fr.Name != "cell" {
+			return
+		}
+		if _, isLookup := st.Val.(*ssa.Lookup); isLookup {
+			reload[st.Block()] = true
+		} else {
+			other[st.Block()] = true
+		}
+	})
+	if len(reload) == 0 {
+		return core.Ob("R-RESET", construct, c.Pos(fn.Pos()), core.FuncName(fn), core.Violated, "refresh no longer reads the current cell from the index's cell map")
+	}
+	stop := map[*ssa.BasicBlock]bool{}
+	for b := range reload {
+		stop[b] = true
+	}
+	for b := range other {
+		stop[b] = true
+	}
+	for _, b := range fn.Blocks {
+		if _, isRet := b.Instrs[len(b.Instrs)-1].(*ssa.Return); !isRet {
+			continue
+		}
+		if !stop[b] && core.ReachableAvoiding(fn.Blocks[0], b, nil, stop) {
+			return core.Ob("R-RESET", construct, c.Pos(fn.Pos()), core.FuncName(fn), core.Violated,
+				"refresh can return without assigning the cached cell (it keeps the old pointer when the cell id at the position is unchanged): after Reset, Add and Build the rebuilt index may have a cell with the same id, and a reused query then tests the new shapes against the old cell's edge lists and containsCenter bits, so its answers differ from those of a fresh query")
+		}
+	}
+	return core.Ob("R-RESET", construct, c.Pos(fn.Pos()), core.FuncName(fn), core.Discharged, "every path through refresh assigns the cached cell (from the index's map, or nil past the end)")
 }
